@@ -947,7 +947,7 @@ struct Rec {
     coq: Option<String>,
     show: Option<String>,
     orc: Option<String>,
-    ks: Vec<(String, String)>,
+    ks: (Vec<String>, String),
     nt: bool,
     imp: String,
     tags: Vec<String>,
@@ -974,14 +974,16 @@ impl Sink {
         if !r.msg.is_empty() {
             let _ = write!(s, ",\"msg\":\"{}\"", json_escape(&r.msg));
         }
-        s.push_str(",\"ks\":[");
-        for (i, (id, t)) in r.ks.iter().enumerate() {
-            if i > 0 {
-                s.push(',');
+        if !r.ks.0.is_empty() {
+            s.push_str(",\"kids\":[");
+            for (i, id) in r.ks.0.iter().enumerate() {
+                if i > 0 {
+                    s.push(',');
+                }
+                let _ = write!(s, "\"{}\"", json_escape(id));
             }
-            let _ = write!(s, "[\"{}\",\"{}\"]", json_escape(id), json_escape(t));
+            let _ = write!(s, "],\"kall\":\"{}\"", json_escape(&r.ks.1));
         }
-        s.push(']');
         let _ = write!(s, ",\"nt\":{},\"impl\":\"{}\",\"tags\":[", r.nt, json_escape(&r.imp));
         for (i, t) in r.tags.iter().enumerate() {
             if i > 0 {
@@ -995,31 +997,34 @@ impl Sink {
     }
 }
 
-fn c08_ks(st: &str, q: &str, lang: Lang, plan: Option<&str>) -> Vec<(String, String)> {
-    let mut ks = vec![
-        ("C08-K1".to_string(), format!("k1_unbounded {q}")),
-        ("C08-K2".to_string(), format!("k2_type_case {st} {q}")),
-        ("C08-K3".to_string(), format!("k3_both_selfloop {st} {q}")),
-        ("C08-K4".to_string(), format!("k4_zero_hops {q}")),
-        ("C08-K5".to_string(), format!("k5_return_distinct {q}")),
-        ("C08-K6".to_string(), format!("k6_gql_limit_first {} {q}", lang.coq())),
-        ("C08-K7".to_string(), format!("k7_multi_label {q}")),
-        ("C08-K10".to_string(), format!("k10_edge_prop_materialised {q}")),
-    ];
+/// finding classes: ids and ONE Coq term evaluating to the list of their truth values
+fn c08_ks(st: &str, q: &str, lang: Lang, plan: Option<&str>) -> (Vec<String>, String) {
+    let mut ids: Vec<String> =
+        ["C08-K1", "C08-K2", "C08-K3", "C08-K4", "C08-K5", "C08-K6", "C08-K7", "C08-K10", "C08-K9", "C08-K12", "C08-K13"].iter().map(|s| s.to_string()).collect();
+    let mut t = format!(
+        "let st := {st} in let q := {q} in [k1_unbounded q; k2_type_case st q; k3_both_selfloop st q; k4_zero_hops q; \
+         k5_return_distinct q; k6_gql_limit_first {} q; k7_multi_label q; k10_edge_prop_materialised q; \
+         k9_cypher_order_cols {} q; k12_cypher_count {} q; k13_typed_result q",
+        lang.coq(),
+        lang.coq(),
+        lang.coq()
+    );
     if let Some(p) = plan {
-        ks.push(("C08-K8".to_string(), format!("k_c10_any {st} {p}")));
+        ids.push("C08-K11".into());
+        ids.push("C08-K8".into());
+        let _ = write!(t, "; k11_stacked_filters {p}; k_c10_any st {p}");
     }
-    ks
+    t.push(']');
+    (ids, t)
 }
-fn c10_ks(st: &str, plan: &str) -> Vec<(String, String)> {
-    vec![
-        ("C10-K1".to_string(), format!("k_zone_edge {st} {plan}")),
-        ("C10-K2".to_string(), format!("k_index_residual {st} {plan}")),
-        ("C10-K3".to_string(), format!("k_index_num {st} {plan}")),
-        ("C10-K4".to_string(), format!("k_range_num {st} {plan}")),
-        ("C10-K5".to_string(), format!("k_fact_missing_level {st} {plan}")),
-        ("C10-K6".to_string(), format!("k_fact_type_case {st} {plan}")),
-    ]
+fn c10_ks(st: &str, plan: &str) -> (Vec<String>, String) {
+    (
+        ["C10-K1", "C10-K2", "C10-K3", "C10-K4", "C10-K5", "C10-K6", "C10-K7"].iter().map(|s| s.to_string()).collect(),
+        format!(
+            "let st := {st} in let p := {plan} in [k_zone_edge st p; k_index_residual st p; k_index_num st p; \
+             k_range_num st p; k_fact_missing_level st p; k_fact_type_case st p; k_fact_not_path p]"
+        ),
+    )
 }
 
 /// one execution of `text` on `w`: correspondence record (+ the C08 oracle when `q` is given)
@@ -1057,4 +1062,1420 @@ fn run_one(w: &World, lang: Lang, text: &str, cached_plan: Option<&LogicalPlan>)
     }
     let obs_coq = obs.coq();
     (Run { obs, obs_coq, plan_coq, st_coq, tags }, compiled.ok())
+}
+
+// ------------------------------------------------------------------------------------------ generators
+const TYPES: [&str; 3] = ["R", "r", "S"];
+fn gen_graph(r: &mut Rng, tier_big: bool) -> Vec<Op> {
+    let n = match r.below(100) {
+        0..=2 => 0,
+        3..=7 => 1,
+        8..=67 => 2 + r.below(5),
+        _ => 7 + r.below(6),
+    } as usize;
+    let acyclic = r.chance(3, 10);
+    let node_w = r.below(5); // 0,1: no node w; 2: low; 3: high; 4: mixed
+    let mut ops = vec![];
+    for i in 0..n {
+        let labels: Vec<String> = match r.below(10) {
+            0..=4 => vec!["A".into()],
+            5..=7 => vec!["B".into()],
+            8 => vec!["A".into(), "B".into()],
+            _ => vec![],
+        };
+        let mut props = vec![("u".to_string(), V::Int(100 + i as i64))];
+        match r.below(10) {
+            0..=5 => props.push(("x".into(), V::Int(r.range(0, 5)))),
+            6 => props.push(("x".into(), V::Half(r.range(0, 10)))),
+            7 => props.push(("x".into(), V::Str((*r.pick(&["a", "b", "ab"])).to_string()))),
+            _ => {}
+        }
+        if !r.chance(3, 10) {
+            props.push(("y".into(), V::Int(r.range(0, 9))));
+        }
+        match node_w {
+            2 => props.push(("w".into(), V::Int(r.range(0, 3)))),
+            3 => props.push(("w".into(), V::Int(r.range(10, 20)))),
+            4 => {
+                if r.chance(1, 2) {
+                    props.push(("w".into(), V::Int(r.range(0, 20))))
+                }
+            }
+            _ => {}
+        }
+        ops.push(Op::Node(labels, props));
+    }
+    if n == 0 {
+        return ops;
+    }
+    let max_e = if tier_big { 31 } else { 19 };
+    let m = match r.below(10) {
+        0 => 0,
+        1..=5 => r.below(8),
+        _ => r.below(max_e),
+    } as usize;
+    let mut prev: Option<(usize, usize)> = None;
+    for j in 0..m {
+        let (s, d) = if let (Some(p), true) = (prev, r.chance(15, 100)) {
+            p
+        } else if !acyclic && r.chance(1, 10) {
+            let s = r.below(n as u64) as usize;
+            (s, s)
+        } else {
+            let a = r.below(n as u64) as usize;
+            let b = r.below(n as u64) as usize;
+            if acyclic {
+                if a == b {
+                    continue;
+                }
+                (a.min(b), a.max(b))
+            } else {
+                (a, b)
+            }
+        };
+        prev = Some((s, d));
+        let ty = match r.below(100) {
+            0..=49 => "R",
+            50..=64 => "r",
+            _ => "S",
+        };
+        let mut props = vec![("eu".to_string(), V::Int(500 + j as i64))];
+        if !r.chance(1, 5) {
+            props.push(("w".into(), V::Int(r.range(0, 12))));
+        }
+        ops.push(Op::Edge(s, d, ty.to_string(), props));
+    }
+    ops
+}
+fn gen_lit(r: &mut Rng, key: &str) -> V {
+    match key {
+        "u" => V::Int(100 + r.range(0, 12)),
+        "eu" => V::Int(500 + r.range(0, 20)),
+        "x" => match r.below(10) {
+            0..=5 => V::Int(r.range(0, 5)),
+            6 | 7 => V::Half(r.range(0, 10)),
+            _ => V::Str((*r.pick(&["a", "b", "ab"])).to_string()),
+        },
+        "w" => match r.below(10) {
+            0 => V::Half(r.range(0, 24)),
+            _ => V::Int(r.range(0, 20)),
+        },
+        _ => V::Int(r.range(0, 9)),
+    }
+}
+fn gen_leaf(r: &mut Rng, nvars: &[String], evars: &[String]) -> Ex {
+    let on_edge = !evars.is_empty() && r.chance(4, 10);
+    let (var, key) = if on_edge {
+        (r.pick(evars).clone(), *r.pick(&["w", "w", "eu"]))
+    } else {
+        (r.pick(nvars).clone(), *r.pick(&["x", "x", "y", "w", "u"]))
+    };
+    let op = *r.pick(&[Cmp::Eq, Cmp::Eq, Cmp::Ne, Cmp::Lt, Cmp::Le, Cmp::Gt, Cmp::Gt, Cmp::Ge]);
+    let lit = Ex::Lit(gen_lit(r, key));
+    let p = Ex::Prop(var, key.to_string());
+    if r.chance(1, 8) { Ex::Cmp(op, Box::new(lit), Box::new(p)) } else { Ex::Cmp(op, Box::new(p), Box::new(lit)) }
+}
+fn gen_pred(r: &mut Rng, nvars: &[String], evars: &[String]) -> Ex {
+    match r.below(20) {
+        0..=9 => gen_leaf(r, nvars, evars),
+        10..=13 => Ex::And(Box::new(gen_leaf(r, nvars, evars)), Box::new(gen_leaf(r, nvars, evars))),
+        14..=16 => Ex::Or(Box::new(gen_leaf(r, nvars, evars)), Box::new(gen_leaf(r, nvars, evars))),
+        17 | 18 => Ex::Not(Box::new(gen_leaf(r, nvars, evars))),
+        _ => {
+            let v = r.pick(nvars).clone();
+            let k = *r.pick(&["x", "y", "w"]);
+            if r.chance(1, 2) {
+                Ex::IsNull(Box::new(Ex::Prop(v, k.into())))
+            } else {
+                Ex::IsNotNull(Box::new(Ex::Prop(v, k.into())))
+            }
+        }
+    }
+}
+fn gen_npat(r: &mut Rng, var: &str, start: bool) -> NPat {
+    let labels: Vec<String> = if start {
+        match r.below(20) {
+            0..=5 => vec![],
+            6..=13 => vec!["A".into()],
+            14..=17 => vec!["B".into()],
+            18 => vec!["A".into(), "B".into()],
+            _ => vec!["B".into(), "A".into()],
+        }
+    } else {
+        match r.below(20) {
+            0..=11 => vec![],
+            12..=15 => vec!["A".into()],
+            16..=18 => vec!["B".into()],
+            _ => vec!["A".into(), "B".into()],
+        }
+    };
+    NPat { var: var.to_string(), labels }
+}
+fn gen_query(r: &mut Rng, w: &World) -> Query {
+    let k = match r.below(20) {
+        0 | 1 => 0,
+        2..=10 => 1,
+        11..=17 => 2,
+        _ => 3,
+    };
+    let nnames = ["a", "b", "c", "d"];
+    let enames = ["r", "s", "t"];
+    let start = gen_npat(r, nnames[0], true);
+    let mut hops = vec![];
+    let small = w.edges.len() <= 10;
+    let mut have_var = false;
+    for i in 0..k {
+        let dir = match r.below(4) {
+            0 | 1 => Dir::Out,
+            2 => Dir::In,
+            _ => Dir::Both,
+        };
+        let ty = match r.below(20) {
+            0..=6 => None,
+            7..=13 => Some("R".to_string()),
+            14 | 15 => Some("r".to_string()),
+            _ => Some("S".to_string()),
+        };
+        let mut len = HLen::One;
+        if !have_var && r.chance(15, 100) {
+            len = match r.below(8) {
+                0 | 1 => HLen::Var(1, Some(2)),
+                2 => HLen::Var(2, Some(2)),
+                3 => HLen::Var(0, Some(1)),
+                4 => {
+                    if small { HLen::Var(1, Some(3)) } else { HLen::Var(1, Some(2)) }
+                }
+                5 => {
+                    if small { HLen::Var(2, Some(3)) } else { HLen::Var(2, Some(2)) }
+                }
+                _ => {
+                    if w.acyclic_forward() && dir != Dir::Both {
+                        if r.chance(1, 2) { HLen::Var(1, None) } else { HLen::Var(2, None) }
+                    } else {
+                        HLen::Var(1, Some(2))
+                    }
+                }
+            };
+            have_var = true;
+        }
+        let evar = if len == HLen::One && r.chance(3, 4) { Some(enames[i].to_string()) } else { None };
+        hops.push(Hop { dir, ty, evar, len, to: gen_npat(r, nnames[i + 1], false) });
+    }
+    let mut q = Query { start, hops, wher: None, ret: Ret::Plain(vec![], false), order: vec![], skip: None, limit: None };
+    let nvars = q.vars_node();
+    let evars: Vec<String> = q.hops.iter().filter_map(|h| h.evar.clone()).collect();
+    if r.chance(7, 10) {
+        q.wher = Some(gen_pred(r, &nvars, &evars));
+    }
+    if r.chance(7, 10) {
+        let cnt = 1 + r.below(3);
+        let mut items = vec![];
+        for _ in 0..cnt {
+            let use_edge = !evars.is_empty() && r.chance(1, 3);
+            let v = if use_edge { r.pick(&evars).clone() } else { r.pick(&nvars).clone() };
+            if r.chance(1, 2) {
+                items.push(Ex::Var(v));
+            } else {
+                let key = if use_edge { *r.pick(&["w", "eu"]) } else { *r.pick(&["x", "y", "u", "w"]) };
+                items.push(Ex::Prop(v, key.to_string()));
+            }
+        }
+        q.ret = Ret::Plain(items, r.chance(15, 100));
+    } else {
+        let mut keys = vec![];
+        if r.chance(1, 2) {
+            let v = r.pick(&nvars).clone();
+            keys.push(if r.chance(1, 2) { Ex::Prop(v, "y".into()) } else { Ex::Var(v) });
+        }
+        let mut aggs = vec![];
+        for _ in 0..(1 + r.below(2)) {
+            let use_edge = !evars.is_empty() && r.chance(1, 2);
+            let v = if use_edge { r.pick(&evars).clone() } else { r.pick(&nvars).clone() };
+            let f = *r.pick(&[AggFn::Count, AggFn::Count, AggFn::Sum, AggFn::Avg, AggFn::Min, AggFn::Max, AggFn::Collect]);
+            let arg = match f {
+                AggFn::Count => {
+                    if r.chance(1, 2) { Ex::Var(v) } else { Ex::Prop(v, if use_edge { "w".into() } else { "y".into() }) }
+                }
+                AggFn::Sum | AggFn::Avg => Ex::Prop(v, if use_edge { (*r.pick(&["w", "eu"])).into() } else { (*r.pick(&["y", "u", "w"])).into() }),
+                _ => Ex::Prop(v, if use_edge { "w".into() } else { (*r.pick(&["x", "y", "w"])).into() }),
+            };
+            aggs.push(Agg { f, arg });
+        }
+        q.ret = Ret::Agg(keys, aggs);
+    }
+    // ORDER BY: a total key exists when every hop is a single edge with a variable
+    let total_possible = q.hops.iter().all(|h| h.len == HLen::One && h.evar.is_some());
+    if let Ret::Plain(_, false) = q.ret {
+        if r.chance(35, 100) {
+            if total_possible {
+                let desc = r.chance(1, 2);
+                let mut ord = vec![(Ex::Prop(q.start.var.clone(), "u".into()), desc)];
+                for h in &q.hops {
+                    ord.push((Ex::Prop(h.evar.clone().unwrap(), "eu".into()), r.chance(1, 2)));
+                }
+                if r.chance(1, 4) {
+                    ord.insert(0, (Ex::Prop(q.start.var.clone(), "y".into()), r.chance(1, 2)));
+                }
+                q.order = ord;
+                if r.chance(6, 10) {
+                    if r.chance(1, 2) {
+                        q.skip = Some(r.below(4) as usize);
+                    }
+                    if r.chance(3, 4) {
+                        q.limit = Some(r.below(6) as usize);
+                    }
+                }
+            } else if r.chance(1, 2) {
+                q.order = vec![(Ex::Prop(q.start.var.clone(), "u".into()), r.chance(1, 2))];
+            }
+        }
+    } else if r.chance(1, 10) {
+        // LIMIT with DISTINCT / aggregation: only the GQL placement defect is reachable (K6)
+        q.limit = Some(1 + r.below(3) as usize);
+    }
+    q
+}
+fn order_total(q: &Query) -> bool {
+    !q.order.is_empty() && q.hops.iter().all(|h| h.len == HLen::One && h.evar.is_some()) && q.order.len() >= 1 + q.hops.len()
+}
+/// rough bound on the number of rows of variable-length hops (walk counting), to keep cases small
+fn walks_ok(w: &World, q: &Query) -> bool {
+    for h in &q.hops {
+        if let HLen::Var(_, mx) = &h.len {
+            let maxh = mx.unwrap_or(12).max(1) as usize;
+            // count walks by DP over directions
+            let ids: Vec<u64> = w.nodes.keys().copied().collect();
+            let mut cnt: BTreeMap<u64, u64> = ids.iter().map(|i| (*i, 1u64)).collect();
+            let mut total: u64 = 0;
+            for _ in 0..maxh {
+                let mut nxt: BTreeMap<u64, u64> = ids.iter().map(|i| (*i, 0u64)).collect();
+                for e in w.edges.values() {
+                    let c_s = cnt[&e.src];
+                    let c_d = cnt[&e.dst];
+                    match h.dir {
+                        Dir::Out => *nxt.get_mut(&e.dst).unwrap() += c_s,
+                        Dir::In => *nxt.get_mut(&e.src).unwrap() += c_d,
+                        Dir::Both => {
+                            *nxt.get_mut(&e.dst).unwrap() += c_s;
+                            *nxt.get_mut(&e.src).unwrap() += c_d;
+                        }
+                    }
+                }
+                total = total.saturating_add(nxt.values().sum::<u64>());
+                cnt = nxt;
+                if total > 400 {
+                    return false;
+                }
+            }
+        }
+    }
+    true
+}
+
+// ------------------------------------------------------------------------------------------ renderings
+fn render(q: &Query, lang: Lang) -> Option<String> {
+    match lang {
+        Lang::Gql | Lang::Cypher => Some(q.gql_text()),
+        Lang::Gremlin => render_gremlin(q),
+        Lang::Graphql => render_graphql(q),
+    }
+}
+
+// ------------------------------------------------------------------------------------------ C08
+fn c08_case(sink: &mut Sink, w: &World, q: &Query, kind: &str, extra_tags: &[String]) {
+    let qc = q.coq();
+    let mode = if order_total(q) { "Seq" } else { "Bag" };
+    let nt = q.has_expand() && q.wher.is_some() && w.has_selfloop_or_parallel();
+    let mut results: Vec<(Lang, Obs)> = vec![];
+    let mut xl_obs: Vec<String> = vec![];
+    let mut xl_ids: Vec<String> = vec![];
+    let mut xl_terms: Vec<String> = vec![];
+    for lang in [Lang::Gql, Lang::Cypher, Lang::Gremlin, Lang::Graphql] {
+        let Some(text) = render(q, lang) else { continue };
+        let (run, _) = run_one(w, lang, &text, None);
+        let mut rec = Rec { k: format!("{kind}-{}", lang.name()), nt, ..Default::default() };
+        rec.input = format!("{} | {} | {}", lang.name(), text, w.describe());
+        rec.imp = run.obs.brief();
+        rec.tags = run.tags.clone();
+        rec.tags.extend_from_slice(extra_tags);
+        rec.tags.push(format!("hops:{}", q.hops.len()));
+        rec.tags.push(format!("mode:{mode}"));
+        if q.hops.iter().any(|h| h.len != HLen::One) {
+            rec.tags.push("pattern:var-length".into());
+        }
+        if q.hops.iter().any(|h| h.dir == Dir::Both) {
+            rec.tags.push("pattern:undirected".into());
+        }
+        match &q.ret {
+            Ret::Plain(_, true) => rec.tags.push("clause:distinct".into()),
+            Ret::Agg(..) => rec.tags.push("clause:aggregate".into()),
+            _ => {}
+        }
+        if !q.order.is_empty() {
+            rec.tags.push("clause:order-by".into());
+        }
+        if q.skip.is_some() || q.limit.is_some() {
+            rec.tags.push("clause:skip-limit".into());
+        }
+        if w.nodes.is_empty() {
+            rec.tags.push("graph:empty".into());
+        }
+        if w.has_selfloop_or_parallel() {
+            rec.tags.push("graph:selfloop-or-parallel".into());
+        }
+        if let (Some(p), Some(o)) = (&run.plan_coq, &run.obs_coq) {
+            rec.coq = Some(format!("chk_run {} {} {} {mode} {}", opts_coq(w), run.st_coq, p, o));
+            rec.show = Some(format!("show_run {} {} {}", opts_coq(w), run.st_coq, p));
+        }
+        if let (Some(_), Some(o)) = (&run.obs.rows, &run.obs_coq) {
+            rec.orc = Some(format!("orc_answer {} {} {mode} {}", run.st_coq, qc, o));
+            rec.ks = c08_ks(&run.st_coq, &qc, lang, run.plan_coq.as_deref());
+            rec.msg = "engine rows differ from the declarative answer (bindings + clauses) of the abstract query".into();
+            results.push((lang, run.obs.clone()));
+            xl_obs.push(o.clone());
+            xl_ids.extend(rec.ks.0.iter().cloned());
+            xl_terms.push(format!("({})", rec.ks.1));
+        }
+        sink.emit(&rec);
+    }
+    // the same question in two languages (support; each language is also compared with the declarative answer)
+    if results.len() >= 2 {
+        let canon = |o: &Obs| {
+            let mut v: Vec<String> = o.rows.as_ref().unwrap().1.iter().map(|r| format!("{:?}", r)).collect();
+            if mode == "Bag" {
+                v.sort();
+            }
+            v
+        };
+        let first = canon(&results[0].1);
+        let agree = results.iter().all(|(_, o)| canon(o) == first);
+        let mut rec = Rec { k: format!("{kind}-xlang"), nt, ..Default::default() };
+        rec.input = format!("{} | {}", q.gql_text(), w.describe());
+        rec.imp = results.iter().map(|(l, o)| format!("{}={}", l.name(), o.brief())).collect::<Vec<_>>().join(" ; ");
+        rec.tags.push(format!("xlang:{}", results.iter().map(|(l, _)| l.name()).collect::<Vec<_>>().join("+")));
+        rec.tags.push(if agree { "xlang:agree".into() } else { "xlang:differ".into() });
+        rec.orc = Some(format!("xlang_same {mode} {}", coq::list(xl_obs.iter().cloned())));
+        rec.ks = (xl_ids, xl_terms.join(" ++ "));
+        rec.msg = "the same question asked in two languages gets different answers".into();
+        sink.emit(&rec);
+    }
+}
+
+fn mk_world(ops: &[Op], factorized: bool) -> World {
+    World::build(factorized, ops)
+}
+
+fn c08_corpus(sink: &mut Sink) {
+    let np = |v: &str, ls: &[&str]| NPat { var: v.into(), labels: ls.iter().map(|s| s.to_string()).collect() };
+    let node = |ls: &[&str], u: i64| Op::Node(ls.iter().map(|s| s.to_string()).collect(), vec![("u".into(), V::Int(u))]);
+    let plain = |items: Vec<Ex>| Ret::Plain(items, false);
+    // K2: type case
+    let ops = vec![node(&["A"], 100), node(&["A"], 101), Op::Edge(0, 1, "KNOWS".into(), vec![("eu".into(), V::Int(500))])];
+    let w = mk_world(&ops, true);
+    let q = Query {
+        start: np("a", &[]),
+        hops: vec![Hop { dir: Dir::Out, ty: Some("knows".into()), evar: Some("r".into()), len: HLen::One, to: np("b", &[]) }],
+        wher: None,
+        ret: plain(vec![Ex::Var("a".into()), Ex::Var("r".into()), Ex::Var("b".into())]),
+        order: vec![],
+        skip: None,
+        limit: None,
+    };
+    c08_case(sink, &w, &q, "c08w-k2", &["corpus".into()]);
+    // K3: undirected pattern on a self-loop
+    let ops = vec![node(&["A"], 100), Op::Edge(0, 0, "R".into(), vec![("eu".into(), V::Int(500))])];
+    let w = mk_world(&ops, true);
+    let mut q3 = q.clone();
+    q3.hops[0].dir = Dir::Both;
+    q3.hops[0].ty = None;
+    c08_case(sink, &w, &q3, "c08w-k3", &["corpus".into()]);
+    // K1: unbounded on a 14-node chain
+    let mut ops: Vec<Op> = (0..14).map(|i| node(&["N"], 100 + i)).collect();
+    for i in 0..13 {
+        ops.push(Op::Edge(i, i + 1, "NEXT".into(), vec![("eu".into(), V::Int(500 + i as i64))]));
+    }
+    let w = mk_world(&ops, true);
+    let mut q1 = q.clone();
+    q1.hops[0] = Hop { dir: Dir::Out, ty: Some("NEXT".into()), evar: None, len: HLen::Var(1, None), to: np("b", &[]) };
+    q1.ret = plain(vec![Ex::Var("a".into()), Ex::Var("b".into())]);
+    c08_case(sink, &w, &q1, "c08w-k1", &["corpus".into()]);
+    // K4: *0..1
+    let mut q4 = q1.clone();
+    q4.hops[0].len = HLen::Var(0, Some(1));
+    let w4 = mk_world(&ops[..16.min(ops.len())].to_vec(), true);
+    c08_case(sink, &w4, &q4, "c08w-k4", &["corpus".into()]);
+    // K5 / K6 / K7 / K10 on a small graph
+    let ops = vec![
+        Op::Node(vec!["A".into()], vec![("u".into(), V::Int(100)), ("w".into(), V::Int(70))]),
+        Op::Node(vec!["A".into(), "B".into()], vec![("u".into(), V::Int(101)), ("w".into(), V::Int(71))]),
+        Op::Node(vec!["B".into()], vec![("u".into(), V::Int(102))]),
+        Op::Edge(0, 1, "R".into(), vec![("eu".into(), V::Int(500)), ("w".into(), V::Int(1))]),
+        Op::Edge(0, 2, "R".into(), vec![("eu".into(), V::Int(501)), ("w".into(), V::Int(2))]),
+        Op::Edge(1, 2, "R".into(), vec![("eu".into(), V::Int(502)), ("w".into(), V::Int(3))]),
+    ];
+    let w = mk_world(&ops, true);
+    let base = Query {
+        start: np("a", &[]),
+        hops: vec![Hop { dir: Dir::Out, ty: Some("R".into()), evar: Some("r".into()), len: HLen::One, to: np("b", &[]) }],
+        wher: None,
+        ret: Ret::Plain(vec![Ex::Var("a".into())], true),
+        order: vec![],
+        skip: None,
+        limit: None,
+    };
+    c08_case(sink, &w, &base, "c08w-k5", &["corpus".into()]);
+    let mut q6 = base.clone();
+    q6.ret = plain(vec![Ex::Prop("a".into(), "u".into()), Ex::Var("b".into())]);
+    q6.order = vec![(Ex::Prop("a".into(), "u".into()), true), (Ex::Prop("r".into(), "eu".into()), true)];
+    q6.limit = Some(1);
+    c08_case(sink, &w, &q6, "c08w-k6", &["corpus".into()]);
+    let mut q7 = base.clone();
+    q7.start = np("a", &["A", "B"]);
+    q7.hops.clear();
+    q7.ret = plain(vec![Ex::Var("a".into())]);
+    c08_case(sink, &w, &q7, "c08w-k7", &["corpus".into()]);
+    let mut q10 = base.clone();
+    q10.ret = plain(vec![Ex::Prop("r".into(), "w".into())]);
+    q10.order = vec![(Ex::Prop("a".into(), "u".into()), false), (Ex::Prop("r".into(), "eu".into()), false)];
+    c08_case(sink, &w, &q10, "c08w-k10", &["corpus".into()]);
+    // K8 (= C10-K1 seen from C08): edge predicate pruned by the node column
+    let ops = vec![
+        Op::Node(vec!["A".into()], vec![("u".into(), V::Int(100)), ("w".into(), V::Int(1))]),
+        Op::Node(vec!["A".into()], vec![("u".into(), V::Int(101))]),
+        Op::Edge(0, 1, "R".into(), vec![("eu".into(), V::Int(500)), ("w".into(), V::Int(9))]),
+    ];
+    let w = mk_world(&ops, true);
+    let mut q8 = base.clone();
+    q8.wher = Some(Ex::Cmp(Cmp::Gt, Box::new(Ex::Prop("r".into(), "w".into())), Box::new(Ex::Lit(V::Int(5)))));
+    q8.ret = plain(vec![Ex::Var("a".into()), Ex::Var("b".into())]);
+    c08_case(sink, &w, &q8, "c08w-k8", &["corpus".into()]);
+}
+
+fn main() {
+    quiet_panics();
+    let a = parse_args();
+    if let Some(i) = a.rest.iter().position(|x| x == "--probe") {
+        probe(&a.rest[i + 1]);
+        return;
+    }
+    let prop = a.rest.iter().position(|x| x == "--prop").and_then(|i| a.rest.get(i + 1)).cloned().unwrap_or("C08".into());
+    let b: Box<dyn std::io::Write> = match &a.out {
+        Some(p) => Box::new(std::fs::File::create(p).expect("create out")),
+        None => Box::new(std::io::stdout()),
+    };
+    let mut sink = Sink { w: std::io::BufWriter::new(b), n: 0 };
+    let mut rng = Rng::new(a.seed ^ if prop == "C10" { 0xC10 } else { 0xC08 });
+    let big = a.tier == "thorough";
+    if prop == "C08" {
+        c08_corpus(&mut sink);
+        while sink.n < a.cases {
+            let ops = gen_graph(&mut rng, big);
+            let fact = !rng.chance(1, 4);
+            let w = mk_world(&ops, fact);
+            for _ in 0..4 {
+                let mut q = gen_query(&mut rng, &w);
+                match rng.below(10) {
+                    0..=2 => simplify(&mut rng, &mut q, 1),
+                    3..=4 => simplify(&mut rng, &mut q, 2),
+                    _ => {}
+                }
+                if !walks_ok(&w, &q) {
+                    continue;
+                }
+                c08_case(&mut sink, &w, &q, "c08", &[]);
+            }
+        }
+    } else {
+        c10_main(&mut sink, &mut rng, a.cases, big);
+    }
+    sink.w.flush().expect("flush");
+}
+
+// ------------------------------------------------------------------------------------------ Gremlin / GraphQL
+fn conj_leaves(e: &Ex, out: &mut Vec<(String, String, Cmp, V)>) -> bool {
+    match e {
+        Ex::And(a, b) => conj_leaves(a, out) && conj_leaves(b, out),
+        Ex::Cmp(op, a, b) => match (a.as_ref(), b.as_ref()) {
+            (Ex::Prop(v, k), Ex::Lit(l)) => {
+                out.push((v.clone(), k.clone(), *op, l.clone()));
+                true
+            }
+            _ => false,
+        },
+        _ => false,
+    }
+}
+fn gremlin_lit(v: &V) -> Option<String> {
+    Some(match v {
+        V::Int(i) => format!("{i}"),
+        V::Half(h) => format!("{:.1}", *h as f64 / 2.0),
+        V::Str(s) => format!("'{s}'"),
+        V::Bool(b) => format!("{b}"),
+        V::Null => return None,
+    })
+}
+/// linear traversals: g.V() [.hasLabel] [.has]* ( .out/.in/.both(type) [.hasLabel] [.has]* )* then
+/// values / count / sum / min / max / mean / dedup / order / skip / limit on the LAST vertex
+fn render_gremlin(q: &Query) -> Option<String> {
+    let nvars = q.vars_node();
+    let last = nvars.last().unwrap().clone();
+    let mut leaves = vec![];
+    if let Some(w) = &q.wher {
+        if !conj_leaves(w, &mut leaves) {
+            return None;
+        }
+    }
+    if leaves.iter().any(|(v, ..)| !nvars.contains(v)) {
+        return None;
+    }
+    let steps_for = |var: &str, labels: &[String]| -> Option<String> {
+        let mut s = String::new();
+        match labels.len() {
+            0 => {}
+            1 => {
+                let _ = write!(s, ".hasLabel('{}')", labels[0]);
+            }
+            _ => return None,
+        }
+        for (v, k, op, l) in &leaves {
+            if v == var {
+                let lit = gremlin_lit(l)?;
+                let p = match op {
+                    Cmp::Eq => lit,
+                    Cmp::Ne => format!("neq({lit})"),
+                    Cmp::Lt => format!("lt({lit})"),
+                    Cmp::Le => format!("lte({lit})"),
+                    Cmp::Gt => format!("gt({lit})"),
+                    Cmp::Ge => format!("gte({lit})"),
+                };
+                let _ = write!(s, ".has('{k}', {p})");
+            }
+        }
+        Some(s)
+    };
+    let mut s = String::from("g.V()");
+    s.push_str(&steps_for(&q.start.var, &q.start.labels)?);
+    for h in &q.hops {
+        if h.len != HLen::One {
+            return None;
+        }
+        let st = match h.dir {
+            Dir::Out => "out",
+            Dir::In => "in",
+            Dir::Both => "both",
+        };
+        match &h.ty {
+            Some(t) => {
+                let _ = write!(s, ".{st}('{t}')");
+            }
+            None => {
+                let _ = write!(s, ".{st}()");
+            }
+        }
+        s.push_str(&steps_for(&h.to.var, &h.to.labels)?);
+    }
+    // ORDER BY / SKIP / LIMIT only on the single-variable pattern with its unique key
+    if !q.order.is_empty() {
+        if !(q.hops.is_empty() && q.order.len() == 1) {
+            return None;
+        }
+        match &q.order[0] {
+            (Ex::Prop(v, k), desc) if *v == last => {
+                let _ = write!(s, ".order().by('{k}'{})", if *desc { ", desc" } else { "" });
+            }
+            _ => return None,
+        }
+        if let Some(n) = q.skip {
+            let _ = write!(s, ".skip({n})");
+        }
+        if let Some(n) = q.limit {
+            let _ = write!(s, ".limit({n})");
+        }
+    } else if q.skip.is_some() || q.limit.is_some() {
+        return None;
+    }
+    match &q.ret {
+        Ret::Plain(items, distinct) => {
+            if items.len() != 1 {
+                return None;
+            }
+            match &items[0] {
+                Ex::Var(v) if *v == last => {
+                    if *distinct {
+                        s.push_str(".dedup()");
+                    }
+                }
+                Ex::Prop(v, k) if *v == last => {
+                    let _ = write!(s, ".values('{k}')");
+                    if *distinct {
+                        s.push_str(".dedup()");
+                    }
+                }
+                _ => return None,
+            }
+        }
+        Ret::Agg(keys, aggs) => {
+            if !keys.is_empty() || aggs.len() != 1 {
+                return None;
+            }
+            let a = &aggs[0];
+            match (&a.f, &a.arg) {
+                (AggFn::Count, Ex::Var(v)) if *v == last => s.push_str(".count()"),
+                (f, Ex::Prop(v, k)) if *v == last && *f != AggFn::Count && *f != AggFn::Collect => {
+                    let name = match f {
+                        AggFn::Sum => "sum",
+                        AggFn::Avg => "mean",
+                        AggFn::Min => "min",
+                        _ => "max",
+                    };
+                    let _ = write!(s, ".values('{k}').{name}()");
+                }
+                _ => return None,
+            }
+        }
+    }
+    Some(s)
+}
+/// { label(k: lit ...) { field ... TYPE(k: lit ...) { field ... } } }: labelled root, outgoing typed
+/// single hops, equality arguments, scalar fields; fields are emitted level by level
+fn render_graphql(q: &Query) -> Option<String> {
+    if q.start.labels.len() != 1 || !q.order.is_empty() || q.skip.is_some() || q.limit.is_some() {
+        return None;
+    }
+    let nvars = q.vars_node();
+    let mut leaves = vec![];
+    if let Some(w) = &q.wher {
+        if !conj_leaves(w, &mut leaves) {
+            return None;
+        }
+    }
+    if leaves.iter().any(|(v, _, op, l)| !nvars.contains(v) || *op != Cmp::Eq || matches!(l, V::Null)) {
+        return None;
+    }
+    let items = match &q.ret {
+        Ret::Plain(items, false) => items,
+        _ => return None,
+    };
+    // items must be properties of node variables, in level order
+    let mut depth_prev = 0usize;
+    let mut per_level: Vec<Vec<String>> = vec![vec![]; nvars.len()];
+    for it in items {
+        match it {
+            Ex::Prop(v, k) => {
+                let d = nvars.iter().position(|x| x == v)?;
+                if d < depth_prev {
+                    return None;
+                }
+                depth_prev = d;
+                if per_level[d].contains(k) {
+                    return None;
+                }
+                per_level[d].push(k.clone());
+            }
+            _ => return None,
+        }
+    }
+    if per_level.last().unwrap().is_empty() {
+        return None;
+    }
+    let args = |var: &str| -> Option<String> {
+        let mut a = vec![];
+        for (v, k, _, l) in &leaves {
+            if v == var {
+                let lit = match l {
+                    V::Str(s) => format!("\"{s}\""),
+                    other => gremlin_lit(other)?,
+                };
+                a.push(format!("{k}: {lit}"));
+            }
+        }
+        Some(if a.is_empty() { String::new() } else { format!("({})", a.join(", ")) })
+    };
+    let mut s = format!("{{ {}{} {{", q.start.labels[0].to_lowercase(), args(&q.start.var)?);
+    for k in &per_level[0] {
+        let _ = write!(s, " {k}");
+    }
+    for (i, h) in q.hops.iter().enumerate() {
+        if h.len != HLen::One || h.dir != Dir::Out || !h.to.labels.is_empty() {
+            return None;
+        }
+        let t = h.ty.as_ref()?;
+        let _ = write!(s, " {t}{} {{", args(&h.to.var)?);
+        for k in &per_level[i + 1] {
+            let _ = write!(s, " {k}");
+        }
+    }
+    for _ in 0..=q.hops.len() {
+        s.push_str(" }");
+    }
+    s.push_str(" }");
+    Some(s)
+}
+/// reshape a generated query so that it lies in the fragment Gremlin (mode 1) or GraphQL (mode 2) can say
+fn simplify(r: &mut Rng, q: &mut Query, mode: u64) {
+    let nvars = q.vars_node();
+    for h in q.hops.iter_mut() {
+        h.len = HLen::One;
+        if h.to.labels.len() > 1 {
+            h.to.labels.truncate(1);
+        }
+        if mode == 2 {
+            h.dir = Dir::Out;
+            h.to.labels.clear();
+            if h.ty.is_none() {
+                h.ty = Some((*r.pick(&["R", "S", "r"])).to_string());
+            }
+        }
+    }
+    if q.start.labels.len() > 1 {
+        q.start.labels.truncate(1);
+    }
+    if mode == 2 && q.start.labels.is_empty() {
+        q.start.labels.push((*r.pick(&["A", "B"])).to_string());
+    }
+    // WHERE: a conjunction of 0..2 leaves on node variables
+    let mut w: Option<Ex> = None;
+    for _ in 0..r.below(3) {
+        let v = r.pick(&nvars).clone();
+        let k = *r.pick(&["x", "y", "w", "u"]);
+        let op = if mode == 2 { Cmp::Eq } else { *r.pick(&[Cmp::Eq, Cmp::Ne, Cmp::Lt, Cmp::Le, Cmp::Gt, Cmp::Ge]) };
+        let leaf = Ex::Cmp(op, Box::new(Ex::Prop(v, k.to_string())), Box::new(Ex::Lit(gen_lit(r, k))));
+        w = Some(match w {
+            None => leaf,
+            Some(p) => Ex::And(Box::new(p), Box::new(leaf)),
+        });
+    }
+    q.wher = w;
+    q.order.clear();
+    q.skip = None;
+    q.limit = None;
+    let last = nvars.last().unwrap().clone();
+    if mode == 2 {
+        let mut items = vec![];
+        for v in &nvars {
+            for k in ["u", "x", "y", "w"] {
+                if r.chance(1, 3) {
+                    items.push(Ex::Prop(v.clone(), k.to_string()));
+                }
+            }
+        }
+        if !items.iter().any(|e| matches!(e, Ex::Prop(v, _) if *v == last)) {
+            items.push(Ex::Prop(last, "u".into()));
+        }
+        q.ret = Ret::Plain(items, false);
+    } else {
+        q.ret = match r.below(10) {
+            0..=2 => Ret::Plain(vec![Ex::Var(last)], r.chance(1, 4)),
+            3..=6 => Ret::Plain(vec![Ex::Prop(last, (*r.pick(&["u", "x", "y", "w"])).to_string())], r.chance(1, 4)),
+            7 => Ret::Agg(vec![], vec![Agg { f: AggFn::Count, arg: Ex::Var(last) }]),
+            _ => Ret::Agg(
+                vec![],
+                vec![Agg { f: *r.pick(&[AggFn::Sum, AggFn::Min, AggFn::Max, AggFn::Avg]), arg: Ex::Prop(last, (*r.pick(&["y", "u", "w"])).to_string()) }],
+            ),
+        };
+        if q.hops.is_empty() && matches!(q.ret, Ret::Plain(_, false)) && r.chance(1, 3) {
+            q.order = vec![(Ex::Prop(q.start.var.clone(), "u".into()), r.chance(1, 2))];
+            if r.chance(1, 2) {
+                q.skip = Some(r.below(3) as usize);
+            }
+            if r.chance(1, 2) {
+                q.limit = Some(r.below(5) as usize);
+            }
+        }
+    }
+}
+
+// ------------------------------------------------------------------------------------------ C10
+fn mode_of(q: &Query) -> &'static str {
+    if order_total(q) { "Seq" } else { "Bag" }
+}
+/// record of one execution inside a C10 scenario; `other` = the observation it must agree with
+fn c10_rec(
+    sink: &mut Sink,
+    kind: &str,
+    w: &World,
+    lang: Lang,
+    text: &str,
+    run: &Run,
+    mode: &str,
+    other: Option<(&str, &Obs)>,
+    nt: bool,
+    extra: &[String],
+) {
+    let mut rec = Rec { k: kind.to_string(), nt, ..Default::default() };
+    rec.input = format!("{} | {} | {}", lang.name(), text, w.describe());
+    rec.imp = run.obs.brief();
+    rec.tags = run.tags.clone();
+    rec.tags.extend_from_slice(extra);
+    if let (Some(p), Some(o)) = (&run.plan_coq, &run.obs_coq) {
+        rec.coq = Some(format!("chk_run {} {} {} {mode} {}", opts_coq(w), run.st_coq, p, o));
+        rec.show = Some(format!("show_run {} {} {}", opts_coq(w), run.st_coq, p));
+    }
+    if let (Some((what, ob)), Some(o)) = (other, &run.obs_coq) {
+        if let Some(o2) = ob.coq() {
+            rec.orc = Some(format!("orc_same {mode} {} {}", o2, o));
+            rec.msg = format!("the same query text returns different rows: {what}; reference = {}", ob.brief());
+            if let Some(p) = &run.plan_coq {
+                rec.ks = c10_ks(&run.st_coq, p);
+            }
+        }
+    }
+    sink.emit(&rec);
+}
+/// an equality on a value that some node really has (70%), Int/Float flavours swapped now and then
+fn eq_leaf_w(r: &mut Rng, w: &World, var: &str, key: &str) -> Ex {
+    let vals: Vec<V> = w.nodes.values().filter_map(|n| n.props.get(key).cloned()).collect();
+    let mut lit = if !vals.is_empty() && r.chance(7, 10) { r.pick(&vals).clone() } else { gen_lit(r, key) };
+    if r.chance(1, 6) {
+        lit = match lit {
+            V::Int(i) => V::Half(2 * i),
+            V::Half(h) if h % 2 == 0 => V::Int(h / 2),
+            o => o,
+        };
+    }
+    Ex::Cmp(Cmp::Eq, Box::new(Ex::Prop(var.into(), key.into())), Box::new(Ex::Lit(lit)))
+}
+fn eq_leaf(r: &mut Rng, var: &str, key: &str) -> Ex {
+    Ex::Cmp(Cmp::Eq, Box::new(Ex::Prop(var.into(), key.into())), Box::new(Ex::Lit(gen_lit(r, key))))
+}
+fn plain_ret(r: &mut Rng, q: &Query) -> Ret {
+    let nvars = q.vars_node();
+    let mut items = vec![Ex::Var(q.start.var.clone())];
+    for _ in 0..r.below(3) {
+        let v = r.pick(&nvars).clone();
+        items.push(if r.chance(1, 2) { Ex::Var(v) } else { Ex::Prop(v, (*r.pick(&["x", "y", "u", "w"])).to_string()) });
+    }
+    Ret::Plain(items, false)
+}
+/// S1: property index present / absent on every subset of the keys the query filters by equality
+fn c10_index(sink: &mut Sink, r: &mut Rng, ops: &[Op]) {
+    let w0 = World::build(true, ops);
+    let mut q = gen_query(r, &w0);
+    for h in q.hops.iter_mut() {
+        h.len = HLen::One;
+    }
+    if q.hops.len() > 1 {
+        q.hops.truncate(1);
+    }
+    q.order.clear();
+    q.skip = None;
+    q.limit = None;
+    q.ret = plain_ret(r, &q);
+    let a = q.start.var.clone();
+    let keys: Vec<&str> = match r.below(4) {
+        0 => vec!["x"],
+        1 => vec!["y"],
+        2 => vec!["x", "y"],
+        _ => vec!["y", "w"],
+    };
+    let mut p: Option<Ex> = None;
+    let mut add = |e: Ex, p: &mut Option<Ex>| {
+        *p = Some(match p.take() {
+            None => e,
+            Some(x) => Ex::And(Box::new(x), Box::new(e)),
+        })
+    };
+    for k in &keys {
+        add(eq_leaf_w(r, &w0, &a, k), &mut p);
+    }
+    let nvars = q.vars_node();
+    let evars: Vec<String> = q.hops.iter().filter_map(|h| h.evar.clone()).collect();
+    let mut extra_tag = "pred:equalities-only";
+    match r.below(6) {
+        0 | 1 => {
+            add(gen_leaf(r, &[a.clone()], &[]), &mut p);
+            extra_tag = "pred:extra-conjunct";
+        }
+        2 => {
+            add(Ex::Or(Box::new(gen_leaf(r, &[a.clone()], &[])), Box::new(gen_leaf(r, &nvars, &evars))), &mut p);
+            extra_tag = "pred:extra-or";
+        }
+        3 => {
+            add(Ex::Not(Box::new(gen_leaf(r, &[a.clone()], &[]))), &mut p);
+            extra_tag = "pred:extra-not";
+        }
+        _ => {}
+    }
+    q.wher = p;
+    let lang = if r.chance(3, 4) { Lang::Gql } else { Lang::Cypher };
+    let text = q.gql_text();
+    let mode = mode_of(&q);
+    let (base, _) = run_one(&w0, lang, &text, None);
+    c10_rec(sink, "c10-index", &w0, lang, &text, &base, mode, None, false, &["index:none".into(), extra_tag.into()]);
+    let n = keys.len();
+    for mask in 1..(1u32 << n) {
+        let mut ops2 = ops.to_vec();
+        let mut names = vec![];
+        for (i, k) in keys.iter().enumerate() {
+            if mask & (1 << i) != 0 {
+                // half of the time the index exists before the data is loaded
+                if r.chance(1, 2) {
+                    ops2.insert(0, Op::Index(k.to_string()));
+                } else {
+                    ops2.push(Op::Index(k.to_string()));
+                }
+                names.push(*k);
+            }
+        }
+        let w = World::build(true, &ops2);
+        let (run, _) = run_one(&w, lang, &text, None);
+        let took = run.tags.iter().any(|t| t == "path:index");
+        c10_rec(
+            sink,
+            "c10-index",
+            &w,
+            lang,
+            &text,
+            &run,
+            mode,
+            Some(("with vs without property index", &base.obs)),
+            took,
+            &[format!("index:{}", names.join("+")), extra_tag.into()],
+        );
+    }
+}
+/// S2: the range path (a lone range / BETWEEN predicate on a scan) vs the generic filter (p AND p)
+fn c10_range(sink: &mut Sink, r: &mut Rng, ops: &[Op]) {
+    let w = World::build(true, ops);
+    let mut q = gen_query(r, &w);
+    for h in q.hops.iter_mut() {
+        h.len = HLen::One;
+    }
+    if q.hops.len() > 1 {
+        q.hops.truncate(1);
+    }
+    q.order.clear();
+    q.skip = None;
+    q.limit = None;
+    q.ret = plain_ret(r, &q);
+    let a = q.start.var.clone();
+    let key = *r.pick(&["x", "x", "y", "w", "u"]);
+    let lit = || -> Ex { Ex::Lit(V::Null) };
+    let _ = lit;
+    let rng_leaf = |r: &mut Rng, ops: &[Cmp]| {
+        let op = *r.pick(ops);
+        let l = Ex::Lit(gen_lit(r, key));
+        let p = Ex::Prop(a.clone(), key.to_string());
+        if r.chance(1, 5) { Ex::Cmp(op, Box::new(l), Box::new(p)) } else { Ex::Cmp(op, Box::new(p), Box::new(l)) }
+    };
+    let p = if r.chance(1, 3) {
+        Ex::And(Box::new(rng_leaf(r, &[Cmp::Gt, Cmp::Ge])), Box::new(rng_leaf(r, &[Cmp::Lt, Cmp::Le])))
+    } else {
+        rng_leaf(r, &[Cmp::Lt, Cmp::Le, Cmp::Gt, Cmp::Ge])
+    };
+    let lang = if r.chance(3, 4) { Lang::Gql } else { Lang::Cypher };
+    q.wher = Some(p.clone());
+    let t1 = q.gql_text();
+    q.wher = Some(Ex::And(Box::new(p.clone()), Box::new(p)));
+    let t2 = q.gql_text();
+    let mode = mode_of(&q);
+    let (generic, _) = run_one(&w, lang, &t2, None);
+    c10_rec(sink, "c10-range", &w, lang, &t2, &generic, mode, None, false, &["range:p-and-p".into()]);
+    let (run, _) = run_one(&w, lang, &t1, None);
+    let took = run.tags.iter().any(|t| t == "path:range");
+    c10_rec(sink, "c10-range", &w, lang, &t1, &run, mode, Some(("range path (p) vs generic filter (p AND p)", &generic.obs)), took, &["range:p".into()]);
+}
+/// S3: zone-map pruning.  (a) a predicate on an EDGE property while a same-named NODE column exists
+/// (reference: the same graph with the node property renamed); (b) a predicate on a node property of
+/// a labelled scan (reference: the same graph plus an isolated node of another label whose values
+/// widen the column's min/max so that nothing is pruned)
+fn c10_zone(sink: &mut Sink, r: &mut Rng, ops: &[Op]) {
+    let on_edge = r.chance(1, 2);
+    let mut ops1 = ops.to_vec();
+    // make sure the node column `w` exists with a small or large range
+    let lowhigh = r.chance(1, 2);
+    if on_edge {
+        for o in ops1.iter_mut() {
+            if let Op::Node(_, props) = o {
+                props.retain(|(k, _)| k != "w");
+                if r.chance(2, 3) {
+                    props.push(("w".into(), V::Int(if lowhigh { r.range(0, 3) } else { r.range(15, 20) })));
+                }
+            }
+        }
+    }
+    let w1 = World::build(true, &ops1);
+    let mut q = gen_query(r, &w1);
+    for h in q.hops.iter_mut() {
+        h.len = HLen::One;
+        if h.evar.is_none() {
+            h.evar = Some(format!("e{}", h.to.var));
+        }
+    }
+    if q.hops.is_empty() && on_edge {
+        return;
+    }
+    q.order.clear();
+    q.skip = None;
+    q.limit = None;
+    q.ret = plain_ret(r, &q);
+    if !on_edge && q.start.labels.is_empty() {
+        q.start.labels.push("A".into());
+    }
+    for h in q.hops.iter_mut() {
+        if !on_edge && h.to.labels.is_empty() {
+            h.to.labels.push((*r.pick(&["A", "B"])).to_string());
+        }
+    }
+    let evars: Vec<String> = q.hops.iter().filter_map(|h| h.evar.clone()).collect();
+    let nvars = q.vars_node();
+    let var = if on_edge { r.pick(&evars).clone() } else { r.pick(&nvars).clone() };
+    let op = *r.pick(&[Cmp::Gt, Cmp::Ge, Cmp::Lt, Cmp::Le, Cmp::Eq, Cmp::Ne]);
+    let leaf = Ex::Cmp(op, Box::new(Ex::Prop(var, "w".into())), Box::new(Ex::Lit(V::Int(r.range(0, 22)))));
+    q.wher = Some(match r.below(4) {
+        0 => Ex::And(Box::new(leaf), Box::new(gen_leaf(r, &nvars, &evars))),
+        1 => Ex::Or(Box::new(leaf), Box::new(gen_leaf(r, &nvars, &evars))),
+        _ => leaf,
+    });
+    let lang = if r.chance(3, 4) { Lang::Gql } else { Lang::Cypher };
+    let text = q.gql_text();
+    let mode = mode_of(&q);
+    let ops2: Vec<Op> = if on_edge {
+        ops1.iter()
+            .map(|o| match o {
+                Op::Node(l, props) => Op::Node(
+                    l.clone(),
+                    props.iter().map(|(k, v)| (if k == "w" { "w2".to_string() } else { k.clone() }, v.clone())).collect(),
+                ),
+                other => other.clone(),
+            })
+            .collect()
+    } else {
+        let mut o = ops1.clone();
+        o.push(Op::Node(vec!["Z".into()], vec![("w".into(), V::Int(-1000)), ("u".into(), V::Int(9000))]));
+        o.push(Op::Node(vec!["Z".into()], vec![("w".into(), V::Int(1000)), ("u".into(), V::Int(9001))]));
+        o
+    };
+    let w2 = World::build(true, &ops2);
+    let (reference, _) = run_one(&w2, lang, &text, None);
+    let tag = if on_edge { "zone:edge-predicate" } else { "zone:node-predicate" };
+    c10_rec(sink, "c10-zone", &w2, lang, &text, &reference, mode, None, false, &[tag.into(), "zone:reference".into()]);
+    let (run, _) = run_one(&w1, lang, &text, None);
+    let differs_in_zone = true;
+    c10_rec(
+        sink,
+        "c10-zone",
+        &w1,
+        lang,
+        &text,
+        &run,
+        mode,
+        Some((if on_edge { "node column of the same name present vs renamed" } else { "column min/max tight vs widened by an unrelated node" }, &reference.obs)),
+        differs_in_zone,
+        &[tag.into(), format!("zone:node-w-{}", if lowhigh { "low" } else { "high" })],
+    );
+}
+/// S4: factorized execution on / off
+fn c10_fact(sink: &mut Sink, r: &mut Rng, ops: &[Op]) {
+    let won = World::build(true, ops);
+    let woff = World::build(false, ops);
+    let mut q = gen_query(r, &won);
+    while q.hops.len() < 2 {
+        let i = q.hops.len();
+        q.hops.push(Hop {
+            dir: *r.pick(&[Dir::Out, Dir::Out, Dir::In, Dir::Both]),
+            ty: match r.below(4) {
+                0 => None,
+                1 => Some("r".into()),
+                2 => Some("S".into()),
+                _ => Some("R".into()),
+            },
+            evar: Some(["r", "s", "t"][i].to_string()),
+            len: HLen::One,
+            to: gen_npat(r, ["b", "c", "d"][i], false),
+        });
+    }
+    for h in q.hops.iter_mut() {
+        h.len = HLen::One;
+        if r.chance(3, 4) {
+            h.to.labels.clear(); // a label filter between two expands breaks the chain
+        }
+    }
+    q.order.clear();
+    q.skip = None;
+    q.limit = None;
+    let nvars = q.vars_node();
+    let evars: Vec<String> = q.hops.iter().filter_map(|h| h.evar.clone()).collect();
+    q.wher = if r.chance(1, 2) { Some(gen_pred(r, &nvars, &evars)) } else { None };
+    q.ret = match r.below(4) {
+        0 => Ret::Agg(vec![], vec![Agg { f: AggFn::Count, arg: Ex::Var(r.pick(&nvars).clone()) }]),
+        _ => plain_ret(r, &q),
+    };
+    let lang = if r.chance(3, 4) { Lang::Gql } else { Lang::Cypher };
+    let text = q.gql_text();
+    let mode = mode_of(&q);
+    let (flat, _) = run_one(&woff, lang, &text, None);
+    c10_rec(sink, "c10-fact", &woff, lang, &text, &flat, mode, None, false, &["fact:off".into()]);
+    let (run, _) = run_one(&won, lang, &text, None);
+    let took = run.tags.iter().any(|t| t == "path:factorized-chain" || t == "path:factorized-aggregate?");
+    c10_rec(sink, "c10-fact", &won, lang, &text, &run, mode, Some(("factorized execution on vs off", &flat.obs)), took, &["fact:on".into()]);
+}
+/// S5: plan cache cold / warm with data changes (and index creation / removal) in between
+fn c10_cache(sink: &mut Sink, r: &mut Rng, ops: &[Op]) {
+    let fact = !r.chance(1, 4);
+    let mut w = World::build(fact, ops);
+    let mut q = gen_query(r, &w);
+    for h in q.hops.iter_mut() {
+        h.len = HLen::One;
+    }
+    q.skip = None;
+    q.limit = None;
+    if !order_total(&q) {
+        q.order.clear();
+    }
+    if r.chance(1, 2) {
+        // something an index / range path can serve
+        let a = q.start.var.clone();
+        let leaf = if r.chance(1, 2) {
+            eq_leaf(r, &a, "y")
+        } else {
+            Ex::Cmp(*r.pick(&[Cmp::Gt, Cmp::Le]), Box::new(Ex::Prop(a, "y".into())), Box::new(Ex::Lit(V::Int(r.range(0, 9)))))
+        };
+        q.wher = Some(leaf);
+    }
+    let lang = if r.chance(3, 4) { Lang::Gql } else { Lang::Cypher };
+    let text = q.gql_text();
+    let mode = mode_of(&q);
+    let (cold, plan) = run_one(&w, lang, &text, None);
+    c10_rec(sink, "c10-cache", &w, lang, &text, &cold, mode, None, false, &["cache:cold".into()]);
+    let Some(plan) = plan else { return };
+    if cold.obs.rows.is_none() {
+        return;
+    }
+    let mut script = ops.to_vec();
+    for round in 0..(1 + r.below(2)) {
+        // data changes
+        let mut changes = vec![];
+        let nn = w.nids.len();
+        for _ in 0..(1 + r.below(4)) {
+            let c = match r.below(8) {
+                0 | 1 => Op::Node(
+                    vec![(*r.pick(&["A", "B"])).to_string()],
+                    vec![("u".into(), V::Int(300 + r.range(0, 50))), ("y".into(), V::Int(r.range(0, 9))), ("x".into(), V::Int(r.range(0, 5)))],
+                ),
+                2 if nn > 0 => Op::Edge(
+                    r.below(nn as u64) as usize,
+                    r.below(nn as u64) as usize,
+                    (*r.pick(&TYPES)).to_string(),
+                    vec![("eu".into(), V::Int(700 + r.range(0, 50))), ("w".into(), V::Int(r.range(0, 12)))],
+                ),
+                3 if nn > 0 => Op::DelNode(r.below(nn as u64) as usize),
+                4 if !w.eids.is_empty() => Op::DelEdge(r.below(w.eids.len() as u64) as usize),
+                5 if nn > 0 => Op::SetNode(r.below(nn as u64) as usize, (*r.pick(&["y", "x", "w"])).to_string(), V::Int(r.range(0, 9))),
+                6 => {
+                    if w.indexed.contains("y") { Op::DropIndex("y".into()) } else { Op::Index("y".into()) }
+                }
+                _ => Op::Node(vec!["A".into()], vec![("u".into(), V::Int(400 + r.range(0, 50)))]),
+            };
+            changes.push(c);
+        }
+        for c in &changes {
+            w.apply(c);
+            script.push(c.clone());
+        }
+        let fresh = World::build(fact, &script);
+        let (reference, _) = run_one(&fresh, lang, &text, None);
+        c10_rec(sink, "c10-cache", &fresh, lang, &text, &reference, mode, None, false, &["cache:fresh-db".into()]);
+        let (warm, _) = run_one(&w, lang, &text, Some(&plan));
+        let kinds: Vec<&str> = changes
+            .iter()
+            .map(|c| match c {
+                Op::Node(..) => "insert-node",
+                Op::Edge(..) => "insert-edge",
+                Op::DelNode(..) => "delete-node",
+                Op::DelEdge(..) => "delete-edge",
+                Op::SetNode(..) => "set-prop",
+                Op::Index(..) => "create-index",
+                Op::DropIndex(..) => "drop-index",
+            })
+            .collect();
+        let mut tags: Vec<String> = kinds.iter().map(|k| format!("change:{k}")).collect();
+        tags.push(format!("cache:warm-{}", round + 1));
+        c10_rec(sink, "c10-cache", &w, lang, &text, &warm, mode, Some(("cached plan after data changes vs a fresh database in the same state", &reference.obs)), true, &tags);
+    }
+}
+fn c10_corpus(sink: &mut Sink, r: &mut Rng) {
+    // K1 witness: MATCH (x)-[r:R]->(y) WHERE r.w > 5 with a node column w whose values are all <= 5
+    let ops = vec![
+        Op::Node(vec!["A".into()], vec![("u".into(), V::Int(100)), ("w".into(), V::Int(1))]),
+        Op::Node(vec!["A".into()], vec![("u".into(), V::Int(101))]),
+        Op::Edge(0, 1, "R".into(), vec![("eu".into(), V::Int(500)), ("w".into(), V::Int(9))]),
+    ];
+    let text = "MATCH (x)-[r:R]->(y) WHERE r.w > 5 RETURN x, r, y";
+    let w1 = World::build(true, &ops);
+    let ops2: Vec<Op> = ops
+        .iter()
+        .map(|o| match o {
+            Op::Node(l, p) => Op::Node(l.clone(), p.iter().map(|(k, v)| (if k == "w" { "w2".into() } else { k.clone() }, v.clone())).collect()),
+            o => o.clone(),
+        })
+        .collect();
+    let w2 = World::build(true, &ops2);
+    let (reference, _) = run_one(&w2, Lang::Gql, text, None);
+    c10_rec(sink, "c10w-k1", &w2, Lang::Gql, text, &reference, "Bag", None, false, &["corpus".into()]);
+    let (run, _) = run_one(&w1, Lang::Gql, text, None);
+    c10_rec(sink, "c10w-k1", &w1, Lang::Gql, text, &run, "Bag", Some(("node column w present vs renamed", &reference.obs)), true, &["corpus".into()]);
+    // K2 / K3: index path drops the residual conjunct / compares 1 and 1.0 structurally
+    let ops = vec![
+        Op::Node(vec!["A".into()], vec![("u".into(), V::Int(100)), ("x".into(), V::Int(1)), ("y".into(), V::Int(5))]),
+        Op::Node(vec!["A".into()], vec![("u".into(), V::Int(101)), ("x".into(), V::Int(1)), ("y".into(), V::Int(7))]),
+        Op::Node(vec!["A".into()], vec![("u".into(), V::Int(102)), ("x".into(), V::Half(2)), ("y".into(), V::Int(9))]),
+    ];
+    for (kind, text) in [("c10w-k2", "MATCH (n:A) WHERE (n.x = 1 AND n.y > 6) RETURN n"), ("c10w-k3", "MATCH (n:A) WHERE n.x = 1 RETURN n")] {
+        let w0 = World::build(true, &ops);
+        let (base, _) = run_one(&w0, Lang::Gql, text, None);
+        c10_rec(sink, kind, &w0, Lang::Gql, text, &base, "Bag", None, false, &["corpus".into()]);
+        let mut o = ops.clone();
+        o.push(Op::Index("x".into()));
+        let w = World::build(true, &o);
+        let (run, _) = run_one(&w, Lang::Gql, text, None);
+        c10_rec(sink, kind, &w, Lang::Gql, text, &run, "Bag", Some(("with vs without property index", &base.obs)), true, &["corpus".into()]);
+    }
+    // K4: range path with mixed Int / Float
+    {
+        let w = World::build(true, &ops);
+        let (generic, _) = run_one(&w, Lang::Gql, "MATCH (n:A) WHERE (n.x > 0 AND n.x > 0) RETURN n", None);
+        c10_rec(sink, "c10w-k4", &w, Lang::Gql, "p AND p", &generic, "Bag", None, false, &["corpus".into()]);
+        let (run, _) = run_one(&w, Lang::Gql, "MATCH (n:A) WHERE n.x > 0 RETURN n", None);
+        c10_rec(sink, "c10w-k4", &w, Lang::Gql, "MATCH (n:A) WHERE n.x > 0 RETURN n", &run, "Bag", Some(("range path vs generic filter", &generic.obs)), true, &["corpus".into()]);
+    }
+    // K5 / K6: factorized chain with an empty level / case-differing type at the second step
+    let ops = vec![
+        Op::Node(vec!["A".into()], vec![("u".into(), V::Int(100))]),
+        Op::Node(vec!["A".into()], vec![("u".into(), V::Int(101))]),
+        Op::Node(vec!["B".into()], vec![("u".into(), V::Int(102))]),
+        Op::Edge(0, 1, "KNOWS".into(), vec![("eu".into(), V::Int(500))]),
+        Op::Edge(1, 2, "KNOWS".into(), vec![("eu".into(), V::Int(501))]),
+    ];
+    for (kind, text) in [
+        ("c10w-k5", "MATCH (a)-[r:KNOWS]->(b)-[s:OTHER]->(c) RETURN count(a)"),
+        ("c10w-k5", "MATCH (a)-[r:KNOWS]->(b)-[s:OTHER]->(c) RETURN a, c"),
+        ("c10w-k6", "MATCH (a)-[r:KNOWS]->(b)-[s:knows]->(c) RETURN a, c"),
+    ] {
+        let woff = World::build(false, &ops);
+        let (flat, _) = run_one(&woff, Lang::Gql, text, None);
+        c10_rec(sink, kind, &woff, Lang::Gql, text, &flat, "Bag", None, false, &["corpus".into()]);
+        let won = World::build(true, &ops);
+        let (run, _) = run_one(&won, Lang::Gql, text, None);
+        c10_rec(sink, kind, &won, Lang::Gql, text, &run, "Bag", Some(("factorized execution on vs off", &flat.obs)), true, &["corpus".into()]);
+    }
+    // K7: two sibling expansions of one node (GraphQL sibling fields) planned as one factorized chain
+    let ops = vec![
+        Op::Node(vec!["A".into()], vec![("u".into(), V::Int(100))]),
+        Op::Node(vec!["A".into()], vec![("u".into(), V::Int(101))]),
+        Op::Node(vec!["B".into()], vec![("u".into(), V::Int(102))]),
+        Op::Node(vec!["B".into()], vec![("u".into(), V::Int(103))]),
+        Op::Edge(0, 1, "R".into(), vec![]),
+        Op::Edge(0, 2, "R".into(), vec![]),
+        Op::Edge(1, 2, "S".into(), vec![]),
+        Op::Edge(2, 3, "R".into(), vec![]),
+    ];
+    {
+        let text = "{ a { u S { u } R { u } } }";
+        let woff = World::build(false, &ops);
+        let (flat, _) = run_one(&woff, Lang::Graphql, text, None);
+        c10_rec(sink, "c10w-k7", &woff, Lang::Graphql, text, &flat, "Bag", None, false, &["corpus".into()]);
+        let won = World::build(true, &ops);
+        let (run, _) = run_one(&won, Lang::Graphql, text, None);
+        c10_rec(sink, "c10w-k7", &won, Lang::Graphql, text, &run, "Bag", Some(("factorized execution on vs off", &flat.obs)), true, &["corpus".into()]);
+    }
+    let _ = r;
+}
+fn c10_main(sink: &mut Sink, rng: &mut Rng, cases: usize, big: bool) {
+    c10_corpus(sink, rng);
+    let mut i = 0u64;
+    while sink.n < cases {
+        let ops = gen_graph(rng, big);
+        match i % 5 {
+            0 => c10_index(sink, rng, &ops),
+            1 => c10_range(sink, rng, &ops),
+            2 => c10_zone(sink, rng, &ops),
+            3 => c10_fact(sink, rng, &ops),
+            _ => c10_cache(sink, rng, &ops),
+        }
+        i += 1;
+    }
+}
+
+// ------------------------------------------------------------------------------------------ probe / replay mode
+/// `c08 --probe FILE`: a small script (new [nofact] | node L1,L2 k=v.. | edge s d T k=v.. | set i k=v |
+/// delnode i | deledge i | index k | dropindex k | gql|cypher|gremlin|graphql TEXT) run against a fresh
+/// database; prints rows and the dumped plan.  Used to reproduce a finding by hand.
+fn probe(path: &str) {
+    fn pv(s: &str) -> V {
+        if s == "null" {
+            V::Null
+        } else if s == "true" {
+            V::Bool(true)
+        } else if s == "false" {
+            V::Bool(false)
+        } else if let Some(x) = s.strip_suffix('h') {
+            V::Half(x.parse().unwrap())
+        } else if let Some(x) = s.strip_prefix('\'') {
+            V::Str(x.trim_end_matches('\'').into())
+        } else {
+            V::Int(s.parse().unwrap())
+        }
+    }
+    let txt = std::fs::read_to_string(path).unwrap();
+    let mut w = World::new(true);
+    for line in txt.lines() {
+        let line = line.trim();
+        if line.is_empty() || line.starts_with('#') {
+            continue;
+        }
+        let (cmd, rest) = line.split_once(' ').unwrap_or((line, ""));
+        let kvs = |it: std::str::SplitWhitespace| -> Vec<(String, V)> {
+            it.map(|kv| {
+                let (k, v) = kv.split_once('=').unwrap();
+                (k.to_string(), pv(v))
+            })
+            .collect()
+        };
+        match cmd {
+            "new" => {
+                w = World::new(!rest.contains("nofact"));
+                println!("--- new {rest}");
+            }
+            "node" => {
+                let mut it = rest.split_whitespace();
+                let labels: Vec<String> = it.next().unwrap().split(',').filter(|l| *l != "-").map(|s| s.to_string()).collect();
+                w.apply(&Op::Node(labels, kvs(it)));
+            }
+            "edge" => {
+                let mut it = rest.split_whitespace();
+                let s: usize = it.next().unwrap().parse().unwrap();
+                let d: usize = it.next().unwrap().parse().unwrap();
+                let t = it.next().unwrap().to_string();
+                w.apply(&Op::Edge(s, d, t, kvs(it)));
+            }
+            "set" => {
+                let mut it = rest.split_whitespace();
+                let s: usize = it.next().unwrap().parse().unwrap();
+                let kv = kvs(it);
+                w.apply(&Op::SetNode(s, kv[0].0.clone(), kv[0].1.clone()));
+            }
+            "delnode" => w.apply(&Op::DelNode(rest.trim().parse().unwrap())),
+            "deledge" => w.apply(&Op::DelEdge(rest.trim().parse().unwrap())),
+            "index" => w.apply(&Op::Index(rest.trim().to_string())),
+            "dropindex" => w.apply(&Op::DropIndex(rest.trim().to_string())),
+            "gql" | "cypher" | "gremlin" | "graphql" => {
+                let lang = match cmd {
+                    "gql" => Lang::Gql,
+                    "cypher" => Lang::Cypher,
+                    "gremlin" => Lang::Gremlin,
+                    _ => Lang::Graphql,
+                };
+                let (run, plan) = run_one(&w, lang, rest, None);
+                println!("{cmd:8} {rest}\n   -> {}", run.obs.brief());
+                if std::env::var("PLAN").is_ok() {
+                    match plan {
+                        Some(p) => println!("   plan {}", run.plan_coq.unwrap_or_else(|| format!("(unmodelled) {:?}", p.root))),
+                        None => println!("   plan: front end rejected"),
+                    }
+                }
+            }
+            _ => println!("?? {line}"),
+        }
+    }
 }
